@@ -1,5 +1,8 @@
 mod cmd_lin;
+mod cmd_backend;
+mod cmd_stages;
 mod consts;
+mod pipe;
 mod rec;
 mod rng;
 mod sexp;
@@ -9,7 +12,7 @@ use std::collections::{BTreeMap, BTreeSet};
 use std::fmt::Write as _;
 use std::io::Write as _;
 
-fn catch<F: FnOnce() -> String + std::panic::UnwindSafe>(f: F) -> String {
+pub fn catch<F: FnOnce() -> String + std::panic::UnwindSafe>(f: F) -> String {
     match std::panic::catch_unwind(f) {
         Ok(s) => s,
         Err(e) => {
@@ -65,8 +68,13 @@ fn main() {
     };
     match arg(1) {
         "gen-constants" => { print!("{}", consts::generate()); return; }
+        "codegen-rec" | "codegen-x86" | "codegen-a64" | "codegen-rv" => {
+            let which = &arg(1)[8..];
+            cmd_backend::cmd_codegen(which, num(2, 1), num(3, 0) as usize, &mut *out, &args[5.min(args.len())..]);
+        }
         "pm" => cmd_pm(num(2, 1), num(3, 100) as usize, &mut *out),
         "lin" => cmd_lin::cmd_lin(num(2, 1), num(3, 100) as usize, &mut *out, args.get(5..).unwrap_or(&[])),
+        "stages" => cmd_stages::cmd_stages(num(2, 1), num(3, 0) as usize, args.get(5..).unwrap_or(&[]), &mut *out),
         c => { eprintln!("unknown command {c}"); std::process::exit(2); }
     }
     out.flush().unwrap();
